@@ -80,7 +80,7 @@ CLAIMED.update({
              "Found and fixed F6 (stale helper joins a later resize)."),
     "C11": dict(
         cat="model_checking", ref="DESIGN.md §7 C11",
-        technique="TLC: deadlock freedom + <>AllDone under weak fairness on TreeBinLock.tla; cooperative scheduler makes blocking a state, runs validated against Trace_Live",
+        technique="TLC: deadlock freedom + <>AllDone under weak fairness on TreeBinLock.tla and Flurry.tla; cooperative scheduler makes blocking a state, runs validated against Trace_Live; step-level conformance of the recorded lock-word / waiter / park / unpark events with TreeBinLock.tla (Trace_TreeLock: no lost wake-up obligation per step)",
         text="(A) TLC exhaustively checks the tree-bin read-write lock protocol (writer, 2 readers, spurious wake-ups): mutual exclusion, no "
              "deadlock / lost wake-up, termination under weak fairness. (B) The real crate under the scheduler: every explored run of "
              "reader/writer mixes on tree bins, the initialisation race and resizing tables ends with all calls returned and nothing locked.",
